@@ -191,19 +191,30 @@ example :
         frags := [] }
     leavesWellFormed s d = false ∧ ruleSilent s d = false ∧ Spec.valuesOfCorrectType s d = true := by decide
 
-/-- `numLiteralsOK` (hazard 3) — A DISAGREEMENT ON PARSER-PRODUCED INPUT: an IntValue that is too large for a finite
-    double, `1` followed by 309 zeros, at `a: Float`.  The rule accepts every IntValue where `Float` is expected
-    (`unexpectedIf false`: neither `ParseInt` nor `ParseFloat` is consulted; `Value.Value(nil)` accepts integers beyond
-    int64 since the repair of R15), the specification (§3.5.2: an integer input value that is not representable as a
-    finite IEEE 754 double is an error) rejects it. -/
+/-- `numLiteralsOK` (hazard 3) — FORMER DISAGREEMENT ON PARSER-PRODUCED INPUT, REPAIRED: an IntValue that is too
+    large for a finite double, `1` followed by 309 zeros, at `a: Float`.  The rule used to accept every IntValue where
+    `Float` is expected; since the repair ("an integer literal beyond the range of a double is not a Float") it applies
+    the finite-double test of FloatValue literals (`strconv.ParseFloat`, error or ±Inf) to the integer text as well, as
+    the specification does (§3.5.2).  All hypotheses hold (the numeric one is a theorem for IntValue lexemes). -/
 def bigInt : Value := .mk .int (49 :: List.replicate 309 48) .nil (at' 10)
 
 example :
     let s := schemaWith (tNamed "Float") []
     let d := docArg bigInt
-    numLiteralsOK s d = false ∧
-    (Spec.wellParented s d && schemaOK s && noOneOf s && rootsInput s d && leavesWellFormed s d) = true ∧
-    ruleSilent s d = true ∧ Spec.valuesOfCorrectType s d = false := by decide +kernel
+    hyps s d = true ∧ ruleSilent s d = false ∧ Spec.valuesOfCorrectType s d = false := by decide +kernel
+
+/-- the boundary: `2^1024 - 2^970 - 1` (309 digits; the largest integer that still rounds to the largest finite
+    double) is accepted by both, `2^1024 - 2^970` (rounds to +Inf) is rejected by both -/
+def natDigits (n : Nat) : Bytes := (Nat.toDigits 10 n).map Char.toNat
+def lastFinite : Value := .mk .int (natDigits (2 ^ 1024 - 2 ^ 970 - 1)) .nil (at' 10)
+def firstInfinite : Value := .mk .int (natDigits (2 ^ 1024 - 2 ^ 970)) .nil (at' 10)
+
+example :
+    let s := schemaWith (tNamed "Float") []
+    (hyps s (docArg lastFinite) = true ∧ ruleSilent s (docArg lastFinite) = true ∧
+      Spec.valuesOfCorrectType s (docArg lastFinite) = true) ∧
+    (hyps s (docArg firstInfinite) = true ∧ ruleSilent s (docArg firstInfinite) = false ∧
+      Spec.valuesOfCorrectType s (docArg firstInfinite) = false) := by decide +kernel
 
 /-- … whereas the FloatValue `1e309` is rejected by both (`floatErr`) -/
 example :
